@@ -69,10 +69,11 @@ const (
 	OMark         // marker in the trace (twin runs)
 	OProbe        // capacity probe (bounded files)
 	OReopenResize // close, reopen with FlagUpdMaxSize (A selects the new size)
+	OFreeTop      // free the A highest page ids
 	numOpKinds
 )
 
-var opNames = [...]string{"begin", "alloc", "write", "read", "free", "flushpage", "flushtx", "checkpoint", "setroot", "commit", "rollback", "close", "reopen", "beginro", "mark", "probe", "reopen-resize"}
+var opNames = [...]string{"begin", "alloc", "write", "read", "free", "flushpage", "flushtx", "checkpoint", "setroot", "commit", "rollback", "close", "reopen", "beginro", "mark", "probe", "reopen-resize", "freetop"}
 
 func (k OpKind) String() string { return opNames[k] }
 
@@ -1316,7 +1317,10 @@ func (w *World) checkPartition(s *txfile.VerifSnapshot, after string) bool {
 		}
 	}
 	if w.Mon.Conserve || w.Mon.Coverage {
-		if uint(metaCount) != s.MetaTotal {
+		// (a shrink on open is known to leave the old free-list meta pages
+		// unreferenced - outside the listed properties - so the meta area total
+		// is not compared on shrunk files)
+		if uint(metaCount) != s.MetaTotal && !w.NoCoverage {
 			w.violate("meta-total", "meta-total", "after %s: meta area holds %d pages (free+in use) but metaTotal=%d", after, metaCount, s.MetaTotal)
 			return false
 		}
@@ -1331,7 +1335,17 @@ func (w *World) checkPartition(s *txfile.VerifSnapshot, after string) bool {
 		// coverage: every page below the data end marker has an owner. With
 		// the overflow area in use the markers also cover released overflow
 		// pages; the conservation property (C11) excludes that case.
-		for id := txfile.PageID(2); id < s.DataEnd && !w.OverflowEver && !w.NoCoverage; id++ {
+		covEnd := s.DataEnd
+		if w.NoCoverage {
+			// after a shrink pages beyond the new limit may be released (unowned);
+			// below the limit every page still has an owner
+			if s.MaxPages > 0 && txfile.PageID(s.MaxPages) < covEnd {
+				covEnd = txfile.PageID(s.MaxPages)
+			} else if s.MaxPages == 0 {
+				covEnd = 0
+			}
+		}
+		for id := txfile.PageID(2); id < covEnd && !w.OverflowEver; id++ {
 			if _, ok := owner[id]; !ok {
 				w.violate("partition-leak", "partition-leak", "after %s: page %d (< data end %d) is neither live, free nor meta: leaked", after, id, s.DataEnd)
 				return false
